@@ -10,6 +10,7 @@
 package main
 
 import (
+	"encoding/hex"
 	"fmt"
 	"os"
 	"path/filepath"
@@ -24,6 +25,26 @@ import (
 	"verif/engine/chainsim"
 	"verif/engine/evid"
 )
+
+// Encodings of the points of small order on edwards25519 (canonical and two non-canonical ones).
+var smallOrderKeys = []string{
+	"0100000000000000000000000000000000000000000000000000000000000000",
+	"ecffffffffffffffffffffffffffffffffffffffffffffffffffffffffffff7f",
+	"0000000000000000000000000000000000000000000000000000000000000000",
+	"0000000000000000000000000000000000000000000000000000000000000080",
+	"26e8958fc2b227b045c3f489f2ef98f0d5dfac05d3c63339b13802886d53fc05",
+	"c7176a703d4dd84fba3c0b760d10670f2a2053fa2c39ccc64ec7fd7792ac037a",
+	"26e8958fc2b227b045c3f489f2ef98f0d5dfac05d3c63339b13802886d53fc85",
+	"c7176a703d4dd84fba3c0b760d10670f2a2053fa2c39ccc64ec7fd7792ac03fa",
+	"0100000000000000000000000000000000000000000000000000000000000080",
+	"edffffffffffffffffffffffffffffffffffffffffffffffffffffffffffff7f",
+}
+
+// Message-independent signature candidates (R || S): R = base point, S = 1; R = identity, S = 0.
+var forgedSigs = []string{
+	"5866666666666666666666666666666666666666666666666666666666666666" + "0100000000000000000000000000000000000000000000000000000000000000",
+	"0100000000000000000000000000000000000000000000000000000000000000" + "0000000000000000000000000000000000000000000000000000000000000000",
+}
 
 var ctxLit = regexp.MustCompile(`signature\.NewContext\(\s*"([^"]+)"((?:\s*,\s*signature\.With[A-Za-z]+\(\))*)`)
 
@@ -97,7 +118,28 @@ func runCase(c chainsim.Case, rep chainsim.Reporter, scratch string) {
 		if victim == nil {
 			return nil
 		}
-		switch rng.IntN(3) {
+		switch rng.IntN(4) {
+		case 3:
+			// Envelopes nobody signed: low-order public keys with message-independent
+			// "signatures" (accepted by lax, cofactored verification for any bytes).
+			for _, pkh := range smallOrderKeys {
+				for _, sgh := range forgedSigs {
+					for v := 0; v < 2; v++ {
+						var st transaction.SignedTransaction
+						_ = st.Signature.PublicKey.UnmarshalHex(pkh)
+						sb, _ := hex.DecodeString(sgh)
+						copy(st.Signature.Signature[:], sb)
+						tx := transaction.Transaction{Nonce: uint64(v) * 0, Method: victim.Tx.Method, Body: victim.Tx.Body}
+						if v == 1 {
+							f := transaction.Fee{Gas: 5000}
+							tx.Fee = &f
+						}
+						st.Blob = cbor.Marshal(&tx)
+						out = append(out, &chainsim.GenTx{Raw: cbor.Marshal(st), Method: victim.Method, Intent: "forged-without-key"})
+					}
+				}
+			}
+			attacks["forged-without-key"] += len(out)
 		case 0:
 			// One PRNG-chosen bit flipped in every byte of the envelope.
 			for i := range victim.Raw {
@@ -151,7 +193,7 @@ func runCase(c chainsim.Case, rep chainsim.Reporter, scratch string) {
 	for _, p := range h.Panics {
 		rep.Inconclusive("history ended by a panic (see C10): " + p.Error())
 	}
-	if am.TookEffect >= 20 && attacks["bitflip"] > 0 && attacks["cross-context"] > 0 && attacks["replay"] > 0 {
+	if am.TookEffect >= 20 && attacks["bitflip"] > 0 && attacks["cross-context"] > 0 && attacks["replay"] > 0 && attacks["forged-without-key"] > 0 {
 		rep.Nontrivial(fmt.Sprintf("%s/%d", c.Profile, c.Seed))
 	}
 	if c.Index < 2 {
@@ -165,8 +207,8 @@ func main() {
 	chainsim.Main(chainsim.CheckSpec{
 		ID:    "C09",
 		Level: "exploration",
-		Rule: "each case is one generated block history with fresh, replayed, reordered, nonce-gapped transactions plus, in a third of the blocks, an attack on a valid transaction: one flipped bit in every byte of its envelope, its blob signed under every signature context found in the repository sources (with and without chain separation, other chain ids), byte-identical replays and transplanted signatures; " +
-			"'took effect' = non-empty state diff or code OK at the delivery tap; such a transaction must verify under the harness's own ed25519/sha512-256 check of this chain's transaction context, carry the signer's pre-state nonce, advance exactly that nonce, and its bytes must be new; non-trivial = history with >=20 effective transactions and all three attack kinds",
+		Rule: "each case is one generated block history with fresh, replayed, reordered, nonce-gapped transactions plus, in a third of the blocks, an attack on a valid transaction: one flipped bit in every byte of its envelope, its blob signed under every signature context found in the repository sources (with and without chain separation, other chain ids), byte-identical replays, transplanted signatures, and envelopes nobody signed (small-order public keys with message-independent signatures); " +
+			"'took effect' = non-empty state diff or code OK at the delivery tap; such a transaction must verify under the harness's own ed25519/sha512-256 check of this chain's transaction context, carry the signer's pre-state nonce, advance exactly that nonce, and its bytes must be new; non-trivial = history with >=20 effective transactions and all four attack kinds",
 		Cases: func(r *evid.Run) []chainsim.Case {
 			return chainsim.StdCases(r.Seed, r.Pick(64, 1600), r.Pick(50, 100), []string{"default", "registry", "hostile"})
 		},
